@@ -58,6 +58,11 @@ CHECKS = {
    text="Sources derived from the corpus of the current tree (trivia injected at token boundaries, dense comments, stretched identifiers across the 40/50/100-column thresholds, layout rewrites, string/escape/hole/multi-line shapes) are formatted; the output must parse, be a fixpoint, have the same canonical AST, and carry every input comment in order and nothing else. Violations are shrunk (comments removed while the violation persists) and keyed by (kind, syntactic context of the remaining comment); 32 such classes of pre-existing formatter defects are listed as known findings, two were repaired.",
    design="§3 C17",
    note="Because many comment-placement contexts are already broken, a regression inside an already-listed (kind, context) class is masked; new classes are reported. Comment rule skipped when a pattern string contains `{`."),
+ "C07": dict(
+   technique="runtime monitoring of the compiler's artefacts: a dataflow bytecode verifier as the invariant oracle over every function emitted for a generated/extracted workload, plus a dynamic cross-check of the abstraction against the real interpreter at every instruction boundary",
+   text="Every program accepted from the corpus of the current tree, the std modules and the harness generators is verified function by function as compiled, after tree-shaking, and after each merge into an environment holding other programs: jumps in range, no stack underflow, one stack height per pc, exit height exactly 1 (also at tail calls), locals reads/resets within what is defined on every path, all table indices and type-table ids in range. On a sample the program is executed with quantum 1 and the observed (function, pc, height, locals) at every boundary must lie in the verifier's abstract state (4.6 M states in the quick tier).",
+   design="§3 C07",
+   note="The invariant needs a small dataflow pass to evaluate 'on every path'; it is an oracle over observed artefacts and says nothing about functions the workload never makes the compiler emit."),
 }
 
 NOT_BUILT = "check not built yet in this round (work in progress; see DESIGN.md §6 build order)"
